@@ -214,6 +214,10 @@ ListProg ==
      Clause(Cx("cnt", <<L, N>>), Bip("count", <<L, N>>)),
      Clause(Cx("inc", <<L, R_>>), Bip("include", <<Cx("f", <<Anon>>), L, R_>>)),
      Clause(Cx("apb", <<L, R_>>), Bip("append", <<L, Atom("z"), R_>>)),
+     (* list arguments of a built-in in a clause body which hold a variable only inside a NESTED list (renamed with the clause) *)
+     Clause(Cx("nest", <<X, R_>>), Bip("append", <<Lst(<<a, Lst(<<X>>)>>), c, R_>>)),
+     Clause(Cx("nest2", <<T_, R_>>), Bip("append", <<Lst(<<a, LstT(<<b>>, T_)>>), c, R_>>)),
+     Clause(Cx("nest3", <<X, N>>), AndG(<<UnifyG(L, Lst(<<a, Lst(<<X, b>>)>>)), Bip("count", <<L, N>>), Call(Mem(Lst(<<c, b>>), L))>>)),
      (* a goal whose argument is a list with a tail variable against a head of the same shape *)
      Clause(Cx("wrap", <<T_>>), Call(Cx("keep", <<LstT(<<a>>, T_)>>))),
      Clause(Cx("keep", <<LstT(<<H>>, T_)>>), Call(Cx("item", <<T_>>))),
@@ -227,6 +231,7 @@ ListQueries ==
     Cx("last", <<L1, Z>>), Cx("last", <<EmptyList, Z>>), Cx("last", <<Lst(<<Lst(<<a>>)>>), Z>>),
     Cx("both", <<Z, L1, L2>>), Cx("both", <<Z, L1, Lst(<<Z>>)>>),
     Cx("cnt", <<L1, Z>>), Cx("cnt", <<LstT(<<a>>, Anon), Z>>), Cx("inc", <<L3, Z>>), Cx("apb", <<L2, Z>>),
+    Cx("nest", <<IntT(7), Z>>), Cx("nest", <<W, Z>>), Cx("nest2", <<L2, Z>>), Cx("nest3", <<c, Z>>),
     Cx("apb", <<Lst(<<a, Lst(<<b>>)>>), Z>>), Mem(Lst(<<Z>>), Lst(<<Lst(<<a>>), b, Lst(<<c>>), EmptyList>>)),
     Mem(EmptyList, Lst(<<Lst(<<a>>), EmptyList>>)), App(Lst(<<EmptyList>>), Lst(<<EmptyList>>), Z),
     Cx("wrap", <<Z>>), Cx("wrap", <<Lst(<<Atom("x")>>)>>), Cx("wrap", <<T_>>), Cx("keep", <<LstT(<<Z>>, T_)>>) }
